@@ -302,8 +302,9 @@ def check_run(res: Result, sc, run, d, stem: str, ref_t, warm: bool = False) -> 
                         epoch = np.datetime64(units[len("seconds since "):].strip().replace(" ", "T"), "s")
                     except ValueError:
                         epoch = None
-                    res.probes["time_pvar_units_judged"] += 1
-                    if epoch is None or epoch != ref_t:
+                    if epoch is not None:
+                        res.probes["time_pvar_units_judged"] += 1
+                    if epoch is not None and epoch != ref_t:
                         res.add(Violation("C06.particle_var", snap["step"], f"{f.name} {name}: units attribute",
                                           units, f"seconds since {ref_t} (the epoch its numbers are counted from)"))
                 if len(got) < npid or not same(got[:npid], want):
